@@ -805,8 +805,10 @@ def run(ctx):
             for bc in BCS:
                 if order == 2 and bc in ("backward", "none"):
                     continue
-                cases.append(case_fd(order, rng.randint(N1 + 1, 40), bc))
-                cases.append(case_fd(order, ["t"] + [rng.randint(N2 + 1, 9)] * 2, bc))
+                for parity in (0, 1):           # one even and one odd larger size
+                    cases.append(case_fd(order, 2 * rng.randint((N1 + 2) // 2, 19) + parity, bc))
+                cases.append(case_fd(order, ["t"] + [2 * rng.randint(3, 4)] * 2, bc))
+                cases.append(case_fd(order, ["t"] + [2 * rng.randint(3, 4) + 1] * 2, bc))
     # ---- 1c. the lower boundary of num_nodes: zero nodes in every form (outside the documented domain: only
     #          model = implementation is compared, built or refused) ------------------------------------------------
     for order in (1, 2):
